@@ -2239,7 +2239,10 @@ fn spenders_of(m: &Model, ci: usize) -> Vec<(Option<u32>, Option<u32>)> {
     m.coins[ci].spenders.iter().map(|s| (m.ttxs[*s].mined, m.ttxs[*s].expiry)).collect()
 }
 
-/// Signature of the finding: a proposal selects an output of a coinbase transaction whose block was rewound away.
+/// Signature of the (repaired) finding: a proposal selects an output of a coinbase transaction whose block was rewound
+/// away. `truncate_to_height` used to clear `tx_index`, the wallet's only coinbase marker, so that the output passed as a
+/// never-expiring zero-confirmation output; the repair keeps `tx_index = 0` when un-mining. The `known_hit` call below is
+/// only a reporting path: with the finding listed as fixed it is not taken and a recurrence is a violation.
 const SIG_ORPHANED_COINBASE: &str = "selected-orphaned-coinbase-coin";
 
 fn links_of(h: &Hist, nid: usize) -> Vec<(u32, bool)> {
@@ -3269,11 +3272,13 @@ fn known_have_ge_need_case() -> C08Case {
     }
 }
 
-/// Recorded minimal input of the finding `selected-orphaned-coinbase-coin`: one account; a coinbase transaction
+/// Regression input of the repaired finding `selected-orphaned-coinbase-coin`: one account; a coinbase transaction
 /// paying 6.25 ZEC to the account's default transparent receiver is mined in the tip block and handed to the wallet
 /// (`decrypt_and_store_transaction`, as the repository's coinbase tests do); a reorganisation removes that block
 /// (`truncate_to_height(tip - 1)`), two blocks of the new branch are scanned; `propose_shielding` from that address under
-/// the DEFAULT confirmations policy (3 / 10, zero-conf shielding allowed) with threshold 10000.
+/// the DEFAULT confirmations policy (3 / 10, zero-conf shielding allowed) with threshold 10000. Before the repair the wallet
+/// returned a proposal spending the orphaned 625000000-zatoshi coinbase output; the coin oracle (`check_coins`) rejects any
+/// proposal that selects it, so the case passes exactly when the wallet answers with an error.
 fn orphaned_coinbase_case() -> C08Case {
     let recv = |v: u64| BlockSpec { txs: vec![TxSpec { items: vec![ItemSpec::Recv { pool: Pool::Sapling, who: Who::Wallet(0), scope: ScopeSel::External, value: v }] }] };
     C08Case {
@@ -3377,7 +3382,7 @@ fn main() {
     ctx.require_label_fraction("proposals", "proposal-ok", 0.40);
     ctx.require_label_fraction("proposals", "locked-note-exclusion-situation", 0.10);
     ctx.require_label_fraction("proposals", "under-confirmed-note", 0.20);
-    // Recorded input of the finding `selected-orphaned-coinbase-coin` (see known_findings.json): every oracle runs on it.
+    // Regression input of the repaired finding `selected-orphaned-coinbase-coin` (see known_findings.json): every oracle runs on it.
     ctx.run_enum(
         "recorded-input-orphaned-coinbase",
         1,
